@@ -51,7 +51,7 @@ class _W:
         self.ready = False
 
 
-def run_tasks(modname, funcname, args, nproc=16, timeout=120, init_path=None, progress=None):
+def run_tasks(modname, funcname, args, nproc=16, timeout=120, init_path=None, progress=None, max_timeouts=6):
     """Run fn(arg) for every arg; returns list of results in order.  A result is either the
     function's return value, or {"crashed": True, "where": "abort"|"timeout", ...} or
     {"exception": {...}} for a Python exception escaping the driver."""
@@ -64,8 +64,19 @@ def run_tasks(modname, funcname, args, nproc=16, timeout=120, init_path=None, pr
     workers = [_W(ctx, modname, funcname, init_path) for _ in range(nproc)]
     t_last = time.time()
 
+    ntimeouts = 0
+
     def feed(w):
-        nonlocal nxt
+        nonlocal nxt, done
+        if ntimeouts >= max_timeouts:
+            # circuit breaker: the code under test hangs; the timed-out tasks already are
+            # violations (clause Returns), do not spend hours on the rest
+            while nxt < n:
+                results[nxt] = {"skipped": True}
+                nxt += 1
+                done += 1
+            w.task = None
+            return
         if nxt < n:
             w.task = nxt
             w.started = time.time()
@@ -114,6 +125,7 @@ def run_tasks(modname, funcname, args, nproc=16, timeout=120, init_path=None, pr
                     w.proc.join(timeout=5)
                     results[w.task] = {"crashed": True, "where": "timeout", "timeout_s": timeout}
                     done += 1
+                    ntimeouts += 1
                     i = workers.index(w)
                     workers[i] = _W(ctx, modname, funcname, init_path)
             if progress and now - t_last > 15:
